@@ -1,7 +1,120 @@
-(* C03 - placeholder theorem until the forging proofs land. *)
-From Coq Require Import QArith Qabs.
-From BB Require Import Base.Num.
-Theorem C03_nearest_round : forall N SR t n,
-  0 < SR -> (n < N)%nat -> Qabs (t * SR - inject_Z (Z.of_nat n)) < 1#2 -> nearest N SR t = n.
-Proof. exact nearest_round. Qed.
+(* C03 - markers are 0/1 and ON exactly on the union of their specified windows.
+   Only statements; every proof is `exact <lemma>` into Proofs/ForgeFacts.v. *)
+From Coq Require Import List ZArith QArith Qabs Bool.
+From BB Require Import Base.Num Base.PyList Model.Types Model.Blueprint Model.Forge Proofs.ForgeFacts.
+Import ListNotations.
+Open Scope Q_scope.
+
+(* painting: sample k is ON iff it lies in some window [start, stop); values are booleans by type *)
+Theorem C03_paint_spec : forall N ws k,
+  (0 <= k < N)%Z ->
+  (nth (Z.to_nat k) (paint N ws) false = true <-> exists w, In w ws /\ (fst w <= k < snd w)%Z).
+Proof. exact paint_spec. Qed.
+
+Theorem C03_paint_length : forall N ws, length (paint N ws) = Z.to_nat N.
+Proof. exact paint_length. Qed.
+
+(* the model's closed-form index is numpy's np.abs(time - t).argmin() with time_k = k/SR,
+   ties and clipping at both ends included *)
+Theorem C03_nearest_is_argmin : forall (N : nat) SR t,
+  0 < SR -> (0 < N)%nat -> nearest_fast (Z.of_nat N) SR t = Z.of_nat (nearest N SR t).
+Proof. exact nearest_fast_argmin. Qed.
+
+(* away from ties it is the sample nearest t, i.e. round(t*SR) *)
+Theorem C03_nearest_round : forall (N : Z) SR t n,
+  0 < SR -> (0 <= n < N)%Z -> Qabs (t * SR - inject_Z n) < 1#2 -> nearest_fast N SR t = n.
+Proof. exact nearest_fast_round. Qed.
+
+(* a marker (t_on, len) covers round(len*SR) samples starting at the nearest sample, clipped to the waveform *)
+Theorem C03_window : forall (N : Z) SR t len n c,
+  0 < SR -> (0 <= n < N)%Z -> Qabs (t * SR - inject_Z n) < 1#2 -> rnd (len * SR) = c -> (0 <= c)%Z ->
+  window N SR (t, len) = (n, Z.min (n + c) N).
+Proof. exact window_spec. Qed.
+
+(* the forged marker arrays are the paint of the absolute windows and of the segment-bound windows,
+   the latter placed at the post-rounding start of their segment plus their delay *)
+Theorem C03_windows : forall b SR ds f,
+  forge_bp_with b SR ds = Ok f ->
+  let ns := map bn (fblocks f) in
+  fm1 f = paint (fN f) (map (window (fN f) SR) (am1 b ++ seg_specs SR (starts 0 ns) (sm1 b))) /\
+  fm2 f = paint (fN f) (map (window (fN f) SR) (am2 b ++ seg_specs SR (starts 0 ns) (sm2 b))).
+Proof. exact forge_markers. Qed.
+
+Theorem C03_segment_start : forall ns i, (i < length ns)%nat ->
+  nth_error (starts 0 ns) i = Some (sumZ (firstn i ns)).
+Proof. exact starts_nth. Qed.
+
+(* which absolute specs the segment-bound markers turn into: exactly one per segment with non-zero
+   length, at (start of segment i)/SR + delay; zero-length (= removed) markers contribute nothing *)
+Theorem C03_seg_specs : forall SR sts sm t len,
+  length sts = length sm ->
+  (In (t, len) (seg_specs SR sts sm) <->
+   exists i st dl, nth_error sts i = Some st /\ nth_error sm i = Some (dl, len) /\
+                   Qeq_bool len 0 = false /\ t = (inject_Z st / SR + dl)%Q).
+Proof. exact seg_specs_spec. Qed.
+
+(* a zero-length window paints nothing *)
+Theorem C03_zero_length : forall N SR m k, rnd (snd m * SR) = 0%Z -> in_window k (window N SR m) = false.
+Proof. exact zero_window. Qed.
+
+(* marker specifications never change waveform samples ... *)
+Theorem C03_markers_do_not_touch_waveform : forall b SR ds x1 x2 y1 y2,
+  let b' := mkBp (names b) (funs b) (args b) (durs b) x1 x2 y1 y2 (sr b) in
+  match forge_bp_with b SR ds, forge_bp_with b' SR ds with
+  | Ok f, Ok f' => fblocks f = fblocks f' /\ fN f = fN f' /\ fnewdurs f = fnewdurs f'
+  | Err e, Err e' => e = e'
+  | _, _ => False
+  end.
+Proof. exact markers_noninterference. Qed.
+
+(* ... and the two marker channels do not interfere with each other *)
+Theorem C03_channels_independent : forall b SR ds x1 y1 f f',
+  forge_bp_with b SR ds = Ok f ->
+  forge_bp_with (mkBp (names b) (funs b) (args b) (durs b) x1 (sm2 b) y1 (am2 b) (sr b)) SR ds = Ok f' ->
+  fm2 f = fm2 f'.
+Proof. exact marker_channels_independent. Qed.
+
+(* segment-bound markers stay attached: inserting or removing another segment moves every parallel
+   list in the same way, so each remaining segment keeps its function, arguments, duration and specs *)
+Theorem C03_attached_insert : forall b pos f a d nm b' p,
+  length (funs b) = length (names b) -> length (args b) = length (names b) -> length (durs b) = length (names b) ->
+  length (sm1 b) = length (names b) -> length (sm2 b) = length (names b) ->
+  bp_insert b pos f a d nm = (b', None) ->
+  p = (if (pos =? -1)%Z then length (names b) else Nat.min (Z.to_nat pos) (length (names b))) ->
+  forall k, let k' := if Nat.ltb k p then k else S k in
+    nth_error (funs b') k' = nth_error (funs b) k /\ nth_error (args b') k' = nth_error (args b) k /\
+    nth_error (durs b') k' = nth_error (durs b) k /\ nth_error (sm1 b') k' = nth_error (sm1 b) k /\
+    nth_error (sm2 b') k' = nth_error (sm2 b) k.
+Proof. exact attached_insert. Qed.
+
+Theorem C03_attached_remove : forall b n b' p,
+  length (funs b) = length (names b) -> length (args b) = length (names b) -> length (durs b) = length (names b) ->
+  length (sm1 b) = length (names b) -> length (sm2 b) = length (names b) ->
+  bp_remove b n = (b', None) -> name_idx n b = Some p ->
+  forall k, k <> p -> let k' := if Nat.ltb k p then k else Nat.pred k in
+    nth_error (funs b') k' = nth_error (funs b) k /\ nth_error (args b') k' = nth_error (args b) k /\
+    nth_error (durs b') k' = nth_error (durs b) k /\ nth_error (sm1 b') k' = nth_error (sm1 b) k /\
+    nth_error (sm2 b') k' = nth_error (sm2 b) k.
+Proof. exact attached_remove. Qed.
+
+(* non-vacuity: overlapping windows, one running past the end, one segment-bound with negative delay *)
+Example C03_example :
+  let b := mkBp [] [Framp; Framp] [[VNum 0; VNum 1]; [VNum 0; VNum 1]] [VNum (1 # 10); VNum (1 # 10)]
+                [(0, 0); ((-2) # 100, 5 # 100)]%Q [(0, 0); (0, 0)]%Q [(3 # 100, 4 # 100); (5 # 100, 1)]%Q [] (VNum 100) in
+  exists f, forge_bp_with b 100 (durs b) = Ok f /\
+    fm1 f = repeat false 3 ++ repeat true 17 /\ fm2 f = repeat false 20.
+Proof. exact markers_example. Qed.
+
+Print Assumptions C03_paint_spec.
+Print Assumptions C03_paint_length.
+Print Assumptions C03_nearest_is_argmin.
 Print Assumptions C03_nearest_round.
+Print Assumptions C03_window.
+Print Assumptions C03_windows.
+Print Assumptions C03_segment_start.
+Print Assumptions C03_seg_specs.
+Print Assumptions C03_zero_length.
+Print Assumptions C03_markers_do_not_touch_waveform.
+Print Assumptions C03_channels_independent.
+Print Assumptions C03_attached_insert.
+Print Assumptions C03_attached_remove.
